@@ -239,4 +239,15 @@ theorem glueSizes_shape {k : Nat} (hk : k ≠ 0) {space : Int} (hs : 0 < space) 
     simp [List.replicate_succ']
   · rfl
 
+/-- reads an optionally signed decimal string. -/
+def readInt : List Char → Int
+  | '-' :: cs => -(horner 10 cs : Int)
+  | cs => (horner 10 cs : Int)
+
+
+theorem natChars_small : natChars 5 = ['5'] ∧ natChars 123 = ['1', '2', '3'] ∧
+    natChars 123456 = ['1', '2', '3', '4', '5', '6'] := by
+  refine ⟨?_, ?_, ?_⟩ <;> simp [natChars, digitsLE_pos, digitsLE_zero, digitChar]
+
+
 end Scryer.Format
